@@ -699,6 +699,32 @@ def check_runs(prog: Program, res: Result) -> None:
             bad = [norm(c.func) for c in ast.walk(st.value) if isinstance(c, ast.Call) and norm(c.func).split(".")[-1] not in ("Path", "str", "isinstance")]
             res.ob(R, not bad, bd.qualname, "chunks are written under the path that was given", f"`{short(st, 70)}` transforms the chunk directory ({bad}): the datasets write "
                    "their chunks somewhere else than the literal path the trainer later deletes", f"{bd.module.relpath}:{st.lineno}")
+    # (crop) the automatically derived crop size is written into the OmegaConf configuration (preprocessing.crop_hw), which
+    # accepts Python primitives only: find_instance_crop_size returns a built-in int (int(...)), never a NumPy scalar -
+    # `np.ceil(x).astype(int) * stride` is numpy.int64 and OmegaConf raises UnsupportedValueType / ValidationError in __init__
+    fc = prog.func("sleap_nn.data.instance_cropping:find_instance_crop_size")
+    res.touch(fc)
+    rets = [r_ for r_ in walk_function(fc.node) if isinstance(r_, ast.Return) and r_.value is not None]
+
+    def _py_int(e_, at_, depth_=0) -> bool:
+        if depth_ > 6:
+            return False
+        x_ = astq.expand_at(fc.node, e_, at_) if depth_ == 0 else e_
+        if isinstance(x_, ast.Call) and norm(x_.func) in ("int", "math.ceil", "math.floor", "round", "len"):
+            return True
+        if isinstance(x_, ast.Constant) and isinstance(x_.value, int):
+            return True
+        if isinstance(x_, ast.BinOp) and isinstance(x_.op, (ast.Mult, ast.Add, ast.Sub, ast.FloorDiv)):
+            return _py_int(x_.left, at_, depth_ + 1) and _py_int(x_.right, at_, depth_ + 1)
+        if isinstance(x_, ast.Name) and x_.id in fc.params:
+            return True
+        if isinstance(x_, ast.IfExp):
+            return _py_int(x_.body, at_, depth_ + 1) and _py_int(x_.orelse, at_, depth_ + 1)
+        return False
+
+    res.ob(R, bool(rets) and all(_py_int(r_.value, r_) for r_ in rets), fc.qualname, "returns a built-in int",
+           f"find_instance_crop_size returns `{short(rets[0].value, 50) if rets else '?'}`, which is not a built-in int (a NumPy scalar cannot be stored in the OmegaConf "
+           "configuration: constructing the trainer fails for centered-instance models without an explicit crop size)", fc.where)
     res.floor(R, 5)
 
 
